@@ -46,6 +46,12 @@ def check_predict(chk, rep, repo, cls, fields):
     if not okq:
         return 0
     Q, i, x = nlp
+    qargs = dict(zip(["X", "Y", "I"], Q[2]))
+    qargs.update(dict(Q[3]))
+    rep.fn("KNN-query-features", fn, "the query graph is built from the caller's array unchanged",
+           qargs.get("X") == ("param", fn.params[1]),
+           f"the query nodes are built from '{show(qargs.get('X')) if qargs.get('X') else '?'}' instead of the argument '{fn.params[1]}'",
+           line=sc.per.line)
     kterm = sc.slot
     rep.fn("KNN-k", fn, "k is the model's stored best_k", kterm == ("attr", G, "best_k"),
            f"k is '{show(kterm)}'", line=sc.per.line)
